@@ -84,6 +84,10 @@ def make_config(rng, prof_name, tier):
     steps = rng.randint(*p["steps"])
     if tier == "thorough":
         steps = int(steps * rng.choice((1, 1.5, 2.5)))
+    placeholders = rng.choice((0.0, 0.0, 0.2, 0.5))
+    if placeholders and rng.random() < 0.35:
+        # small negative identifiers next to placeholders
+        ids = [i - n_ids // 2 for i in range(n_ids)]
     cfg = dict(
         profile=prof_name, ids=ids, elements=els, classes=sorted(classes),
         steps=steps, callers=rng.randint(*p["callers"]),
@@ -91,7 +95,7 @@ def make_config(rng, prof_name, tier):
         fault_rate=rng.uniform(*p["fault_rate"]) if rng.random() < 0.8 else 0.0,
         desc_density=rng.choice((0.0, 0.3, 0.6, 1.0)),
         none_parity=rng.choice((0.0, 0.0, 0.1, 0.3)),
-        placeholders=rng.choice((0.0, 0.0, 0.2, 0.5)),
+        placeholders=placeholders,
         invalid_desc=rng.choice((0.0, 0.0, 0.1)),
         desc_classes=sorted(rng.sample(geom.CLASSES, rng.randint(1, 6))),
         attr_rate=rng.choice((0.0, 0.2, 0.5)),
